@@ -192,7 +192,7 @@ func vjEnc(dst []byte, v interface{}, pretty bool, prefix, indent string, depth 
 		return vjString(dst, c, esc), nil
 	case float64:
 		if math.IsNaN(c) || math.IsInf(c, 0) {
-			return dst, vErrJSON
+			return dst, &json.UnsupportedValueError{Str: "NaN or Inf"} // the error type encoding/json returns
 		}
 		return append(dst, vFormatFloatJSON(c)...), nil
 	case int:
@@ -653,3 +653,6 @@ func m_json_Unmarshal(data []byte, target interface{}) error {
 	}
 	return vjDecodeInto(val, target)
 }
+
+// json.Number is a string type; its accessors
+func m_json_Number_String(n json.Number) string { return string(n) }
